@@ -18,7 +18,7 @@ open Filtered Blocks Part
 variable {A : Type*} [Ring A] [StarRing A] [Algebra ℚ A] [StarModule ℚ A] [Filtered A] [Blocks A]
 
 section NonHerm
-variable {u : Unperturbed A} (e : NonHermEqs A u)
+variable {u : UnperturbedNH A} (e : NonHermEqs A u)
 
 namespace NH
 
